@@ -13,7 +13,7 @@ TABLE = {
  "C01": (True, "runtime monitoring: every released signature checked by the library's three verification entry points over lifetime walks and boundary counters",
          "oracle = the library's own verifier through all three entry points, observed on every signature released by a workload of 6 hashes x W x H2/H5/H10 x 1..8 levels at boundary counters (around every subtree roll-over) and on complete lifetime walks through the real callback chain alternating sign / try_sign / try_sign_with_aux; a run that did not cross a roll-over of each upper level per hash is inconclusive",
          TRUST, "DESIGN.md 5 (C01)"),
- "C02": (True, "runtime differential monitoring of the verifier against an independent RFC 8554 verifier over structure-aware mutations (hooks-on build and production hooks-off build)",
+ "C02": (True, "runtime differential monitoring of the verifier against an independent RFC 8554 verifier over structure-aware mutations (hooks-on build, production hooks-off build, fast_verify/std build; thorough: coverage-guided differential fuzzing with libFuzzer + ASan)",
          "a pool of valid triples (library-, model- (random C) and hash-sigs-tool-signed; 6 hashes; 1..8 levels; plus model-built valid signatures of keys with H15/H20/H25 trees that could never be generated) is mutated field by field using the model's parser (every field class x alterations, every type code, q boundaries, re-cut lengths, level-count and chain manipulations, splices across levels/keys/hashes, truncation/extension, every byte of the smallest signatures, noise); every mutated triple is judged by the library (three entry points) and by the independent verifier, disagreement in either direction is a violation; the hash-sigs tool gives a third opinion on a sample",
          TRUST, "DESIGN.md 5 (C02)"),
  "C03": (True, "offline checking of recorded signing histories (ghost state over released signatures and persisted keys)",
@@ -25,7 +25,7 @@ TABLE = {
  "C04": (True, "fault enumeration with a recording, scripted update callback",
          "the grid state x callback outcome x aux variant x entry point is finite for small keys and is enumerated completely (every counter of the lifetime of [H2],[H2,H2],[H2,H2,H2],[H5] under all 6 hashes, every failing precondition); the callback recorder decides: count, argument = model successor, no release after refusal, no invocation when nothing can be signed",
          TRUST, "DESIGN.md 5 (C04)"),
- "C06": (True, "panic/termination monitor (catch_unwind + panic hook with location) over exhaustive and structure-aware hostile inputs; repeated in a hooks-off build, in builds with reduced HBS_LMS_* limits and (exported corpus) under the Miri interpreter",
+ "C06": (True, "panic/termination monitor (catch_unwind + panic hook with location) over exhaustive and structure-aware hostile inputs; repeated in a hooks-off build, in builds with reduced HBS_LMS_* limits and (exported corpus) under the Miri interpreter; thorough: coverage-guided fuzzing with libFuzzer + ASan",
          "every input of the C02 mutation set plus, per (hash, key shape), every prefix length, all 256 values of every byte of every header/type/level field, level counts with well-formed filler so that parsing proceeds, and raw noise is pushed through all three verification entry points and the byte-level constructors; a panic of any kind (the library is built with overflow checks) is a violation, keyed by panic site, entry point and input class",
          TRUST + "; termination is bounded by parsed lengths, longest call reported; a global watchdog firing is inconclusive", "DESIGN.md 5 (C06)"),
  "C07": (True, "runtime differential monitoring: byte comparison with an independently written RFC 8554 signer + independent verifier + reference tool",
@@ -37,7 +37,7 @@ TABLE = {
  "C10": (True, "metamorphic runtime monitoring (with aux vs without aux) + layout comparison with the model and the reference tool",
          "for every key of the workload the aux-less keygen/sign results are the oracle; keygen and sign are repeated with thousands of hostile buffers (every length, every truncation, every single-bit corruption of small valid buffers, level-word replacements, garbage, other-seed buffers incl. MAC-cut and zero-padded, buffers set up by sign) and any difference, error, panic or write beyond the used length is a violation; fresh buffers must hold the model's hash-sigs layout, byte-identical to the tool's .aux file where the two level selections coincide, and the tool must be able to sign with the library's aux file",
          TRUST + "; buffers MAC-valid for the same seed but another parameter list are legitimate cache contents by the property's own rule and are not generated", "DESIGN.md 5 (C10)"),
- "C11": (True, "fault enumeration under a panic monitor and callback recorder, Ok results checked against the model; repeated in a hooks-off build and (early-failing share) under the Miri interpreter",
+ "C11": (True, "fault enumeration under a panic monitor and callback recorder, Ok results checked against the model; repeated in a hooks-off build, in builds with reduced limits and (early-failing share) under the Miri interpreter; thorough: coverage-guided fuzzing of key/aux/message bytes with libFuzzer + ASan",
          "the malformed-input grid (parameter-list lengths 0..10, key lengths 0..64, all 256 values of every parameter byte of 1-/2-/8-level keys, counters at and beyond the lifetime, wiped key, aux lengths 0..8 and all level-word corruptions) is finite and enumerated completely under all 6 hashes; no panic, no callback on error paths, every Ok must be the model's result for the state the bytes encode",
          TRUST + "; well-formed keys whose trees are unaffordable (H10+) are skipped and counted", "DESIGN.md 5 (C11)"),
  "C12": (True, "exhaustive execution of the real digit-encoding code through a hook, against the Appendix-B formulas, plus domination search",
